@@ -280,13 +280,11 @@ def binaryToBcdAux (VW : Nat) : Nat → Nat → Nat → Nat → Nat
 def binaryToBcd (kBits v : Nat) : Nat :=
   binaryToBcdAux (leastWidth kBits) ((kBits + 3) / 4) 0 v 0
 
-/-- `MaxBcd<ValueType>(bits)`. -/
+/-- `MaxBcd<ValueType>(bits)`:
+`bits < 4 ? (1 << bits) - 1 : 10 * (MaxBcd<ValueType>(bits - 4) + 1) - 1`. -/
 def maxBcd (VW : Nat) : Nat → Nat
-  | bits =>
-    if h : bits < 4 then wrap VW (shl 32 1 bits - 1)
-    else wrap VW (10 * (maxBcd VW (bits - 4) + 1) - 1)
-termination_by bits => bits
-decreasing_by omega
+  | bits + 4 => wrap VW (10 * (maxBcd VW bits + 1) - 1)
+  | bits => wrap VW (shl 32 1 bits - 1)
 
 /-- `IsBcd<ValueType>(x)`: evaluated at `unsigned` when `ValueType` is narrower, else
 `((~x - (~0 / 0xf * 0x6)) & x & (~0 / 0xf * 0x8)) == 0`. -/
